@@ -174,6 +174,17 @@ def _sensitivity(prop, ctx, baseline):
         return {"error": f"{type(e).__name__}: {e}"[:200]}
 
 
+def _robustness(prop, ctx, baseline):
+    """Thorough tier: behaviour-preserving rewrites of the analysed functions, evaluated statically (never a verdict)."""
+    try:
+        from .equiv import robustness
+        r = robustness(prop, ctx.functions_analysed, str(ctx.repo.root), baseline, total=360)
+        r["unrecognised_list"] = r.get("unrecognised_list", [])[:40]
+        return r
+    except Exception as e:      # instrument only
+        return {"error": f"{type(e).__name__}: {e}"[:200]}
+
+
 def run_property(prop, rules, doc, tier, explain=False, replay_key=None):
     """rules: list of (rule_id, text, function(ctx)). Returns exit code."""
     t0 = time.time()
@@ -267,6 +278,7 @@ def run_property(prop, rules, doc, tier, explain=False, replay_key=None):
             **ctx.info,
             **({"selftest": selftest(prop, rules, {i.key for i in viol})} if tier == "thorough" and replay_key is None else {}),
             **({"mutation_sensitivity": _sensitivity(prop, ctx, {i.key for i in viol})} if tier == "thorough" and replay_key is None else {}),
+            **({"rewrite_robustness": _robustness(prop, ctx, {i.key for i in viol})} if tier == "thorough" and replay_key is None else {}),
         },
         "assumptions": [
             "verdicts are about the structural clauses listed in DESIGN.md for this property, not the runtime behaviour as a whole",
